@@ -8,6 +8,9 @@ Second reference layer (lean/MpModel/SpecRef2.lean, ops `spec2/specc2/sref2`; so
 Props/C19b.lean, Props/C22b.lean): non-terminating pFq series (exact partial sum + checked geometric tail bound),
 zeta(n)/altzeta(n) at integers n proportional to the precision (direct sum + tail bound, odd n included), negative
 integer degrees of legendre/chebyt/chebyu.
+Third layer (harness/special_pyref.py, exact rational arithmetic, no Lean proof): polylog(s, z) = z * (hypEncl enclosure) for
+tiny / ordinary dyadic z; pFq at complex arguments / parameters from the exactly summed defining series over Q(i) with a checked
+tail bound, tied to hypEncl on the real and the imaginary axis in every run (run_pyref_tie).
 Tie T1 (decision logic): gammaprod pole counting, hypsum's ZeroDivisionError test, _convert_param, bit-exact.
 
 usage:  special_ops.py <C18|C19|C22|all> [ncases] [seed]
@@ -256,11 +259,15 @@ def param_arg(p, q, r, tuples=True):
 
 
 class Case:
-    __slots__ = ("fn", "args", "prec", "fam", "dargs", "tag", "ctype", "timeout", "op2")
+    __slots__ = ("fn", "args", "prec", "fam", "dargs", "tag", "ctype", "timeout", "op2", "post")
 
-    def __init__(self, fn, args, prec, fam, dargs, tag, ctype=False, timeout=None, op2=False):
+    def __init__(self, fn, args, prec, fam, dargs, tag, ctype=False, timeout=None, op2=False, post=None):
         self.fn, self.args, self.prec, self.fam, self.dargs, self.tag, self.ctype, self.timeout = fn, args, prec, fam, dargs, tag, ctype, timeout
         self.op2 = op2      # decided by the `spec2/specc2/sref2` ops (MpModel/SpecRef2.lean)
+        # post: None, or how the reference is assembled from the driver's answers / decided in exact rational arithmetic
+        #   {"mode": "scale", "z": (num, den), "fam": driver family, "dargs": [...]}   value = z * (driver reference)
+        #   {"mode": "cx", "A": [...], "B": [...], "z": (re, im)}                       special_pyref.hyp_series_disc
+        self.post = post
 
 
 # --------------------------------------------------------------------------------------
@@ -448,11 +455,66 @@ def gen_zeta_switch(r, quick, ct):
     return Case(fn, [a], p, fn, [n], tag + " (closed form)", ct)
 
 
+def polyser_dargs(s, zn, zd):
+    """Li_s(z) = z * (s+1)F(s)(1,..,1; 2,..,2; z)  [z^k/k^s = z * z^(k-1) (1)_(k-1)^(s+1) / ((2)_(k-1)^s (k-1)!)]:
+    the driver arguments of the `hypser` reference of Li_s(z)/z"""
+    return [s + 1] + [1, 1] * (s + 1) + [s] + [2, 1] * s + [zn, zd]
+
+
+POLYSER_ZMAX = (13, 16)     # hypEncl's fuel (4 wp terms) reaches 2^-wp for |z| <= 2^(-1/4); 13/16 is inside, beyond polylog's 0.75
+
+
+def gen_polyser(r, quick, ct):
+    """polylog(s, z), integer s >= 2, dyadic 0 < |z| <= 13/16, decided against z * (s+1)F(s)(1..;2..;z) (SpecRef2.hypEncl):
+    * z = +-2^-k, +-m 2^-k (m small odd) and full-length mantissas times 2^-k with k uniform in 1..2p+24: Li_s(z) ~ z is
+      as small as one likes while polylog_series' stopping tolerance is the ABSOLUTE eps = 2^-(p+10) -- every position of
+      the first neglected term z^j/j^s relative to eps and to eps*|z| is visited, down to |z| < eps;
+    * ordinary z, and z at / on both sides of the switch |z| = 0.75 to polylog_unitcircle (p <= 333 there)."""
+    from fractions import Fraction
+    c = r.random()
+    s = r.choice([2, 2, 3, 3, 4, 5, 6, 7, 9, r.randint(10, 60)])
+    if c < 0.75:
+        p = pick_prec(r, quick)
+        k = r.randint(1, 2 * p + 24)
+        c2 = r.random()
+        if c2 < 0.5:
+            m, tag = 1, "z=+-2^-k"
+        elif c2 < 0.75:
+            m, tag = r.choice([3, 5, 7, 11, 255, 257]), "z=+-m*2^-k"
+        else:
+            nb = r.choice([p, 53, 24])
+            m, tag = (1 << (nb - 1)) | r.getrandbits(nb - 1) | 1, "z full mantissa*2^-k"
+            k += nb
+        z = Fraction(r.choice([1, -1]) * m, 1 << k)
+        tag += " k<=p" if z.denominator <= m << p else (" p<k<=p+10" if z.denominator <= m << (p + 10) else " k>p+10")
+    else:
+        p = r.choice([10, 15, 24, 53, 53, 64, 100, 113, 200, 333])
+        if r.random() < 0.5:
+            j = r.choice([2, 3, 4, 6, 10, 20, 40])
+            z = r.choice([1, -1]) * (Fraction(3, 4) + r.choice([0, 1, -1, 1, -1]) * Fraction(1, 1 << j))
+            tag = "z~+-3/4"
+        else:
+            while True:
+                z = Fraction(*gen_unit_dyadic(r))
+                if z != 0 and abs(z) <= Fraction(*POLYSER_ZMAX):
+                    break
+            tag = "z ordinary"
+        if abs(z) > Fraction(*POLYSER_ZMAX):
+            z = Fraction(3, 4) * (1 if z > 0 else -1)
+    zn, zd = z.numerator, z.denominator
+    sa = ["int", s] if r.random() < 0.7 else ["mpf", s, 0]
+    return Case("polylog", [sa, real_arg(zn, zd, ct)], p, "polyser", [s, zn, zd], tag, ct, op2=True,
+                post={"mode": "scale", "z": (zn, zd), "fam": "hypser", "dargs": polyser_dargs(s, zn, zd)})
+
+
 def gen_C19(r, quick):
-    fn = r.choice(["zeta", "zeta", "altzeta", "hurwitz", "bernpoly", "bernpoly", "eulerpoly", "polylog", "polylog", "zeta-switch"])
+    fn = r.choice(["zeta", "zeta", "altzeta", "hurwitz", "bernpoly", "bernpoly", "eulerpoly", "polylog", "polylog", "zeta-switch",
+                   "polyser", "polyser"])
     ct = r.random() < 0.25
     if fn == "zeta-switch":
         return gen_zeta_switch(r, quick, ct)
+    if fn == "polyser":
+        return gen_polyser(r, quick, ct)
     if fn in ("zeta", "altzeta"):
         c = r.random()
         if c < 0.45:
@@ -533,6 +595,20 @@ def rand_param(r, lo=-6, hi=12, positive=False):
         return pq
 
 
+def rand_param_R(r, lo=-6, hi=12, positive=False):
+    """a dyadic parameter odd/2^k, k >= 5: passed as an exact mpf it is classified 'R' by _convert_param (real, neither an
+    integer nor a small-denominator rational), the type whose code lines in the generated summators the Z/Q parameters
+    never reach; passed as a (p, q) tuple the same value is 'Q'"""
+    k = r.choice([5, 5, 6, 8, 12])
+    den = 1 << k
+    num = r.randint((0 if positive else lo) * den // 2, hi * den // 2 - 1) * 2 + 1
+    return num, den
+
+
+def rand_param_t(r, positive=False, pR=0.4):
+    return rand_param_R(r, positive=positive) if r.random() < pR else rand_param(r, positive=positive)
+
+
 def gen_hypser(r, quick, ct):
     """pFq with no non-positive integer parameter (the series does not terminate):
     * 1F1(b+m; b; z), m = 0..4 (Kummer: e^z times a polynomial) and generic 1F1, 0F1, 1F2, 2F2, pFp at z < 0 of large
@@ -541,26 +617,19 @@ def gen_hypser(r, quick, ct):
       to the asymptotic expansion (|z| >= 64 for 1F1); also z > 0 and small |z|;
     * Gauss type 2F1, 1F0, 3F2 at dyadic |z| <= 3/4."""
     from fractions import Fraction
-    shape = r.choice(["kummer", "kummer", "kummer", "1F1", "0F1", "1F2", "2F2", "2F1", "2F1", "1F0", "3F2"])
+    shape = r.choice(["kummer", "kummer", "kummer", "1F1", "0F1", "1F2", "1F2", "2F2", "2F1", "2F1", "1F0", "3F2", "2F3", "2F3", "0F2", "1F3"])
     p = pick_prec(r, quick, big=True)
+    # parameter TYPES: the summator is generated per type signature (Z / Q / R per parameter); with probability 1/3 every
+    # parameter is R-typed (all counts of R upper vs R lower parameters: the 'cancellable' pairs and the unpaired rest)
+    pR = r.choice([0.0, 0.4, 1.0])
+    rp = lambda **kw: rand_param_t(r, pR=pR, **kw)
     if shape == "kummer":
-        b = rand_param(r, positive=True)
+        b = rp(positive=True)
         m = r.choice([0, 1, 1, 2, 2, 3, 4])
         A, B = [(b[0] + m * b[1], b[1])], [b]
-    elif shape == "1F1":
-        A, B = [rand_param(r)], [rand_param(r)]
-    elif shape == "0F1":
-        A, B = [], [rand_param(r)]
-    elif shape == "1F2":
-        A, B = [rand_param(r)], [rand_param(r), rand_param(r)]
-    elif shape == "2F2":
-        A, B = [rand_param(r), rand_param(r)], [rand_param(r), rand_param(r)]
-    elif shape == "2F1":
-        A, B = [rand_param(r), rand_param(r)], [rand_param(r)]
-    elif shape == "1F0":
-        A, B = [rand_param(r)], []
     else:
-        A, B = [rand_param(r), rand_param(r), rand_param(r)], [rand_param(r), rand_param(r)]
+        na_, nb_ = int(shape[0]), int(shape[2])
+        A, B = [rp() for _ in range(na_)], [rp() for _ in range(nb_)]
     na, nb = len(A), len(B)
     if na == nb + 1:
         k = r.choice([1, 2, 3, 4, 6])
@@ -587,7 +656,7 @@ def gen_hypser(r, quick, ct):
             zn, zd = rand_dyadic(r, -2, 2, 6)
             ztag = "|z|<=2"
     fname = {(1, 1): "hyp1f1", (0, 1): "hyp0f1", (1, 2): "hyp1f2", (2, 2): "hyp2f2", (2, 1): "hyp2f1", (1, 0): "hyper",
-             (3, 2): "hyp3f2"}[(na, nb)]
+             (3, 2): "hyp3f2", (2, 3): "hyp2f3", (0, 2): "hyper", (1, 3): "hyper"}[(na, nb)]
     fn = fname if r.random() < 0.75 else "hyper"
     dargs = [na]
     for (a, b) in A:
@@ -604,6 +673,126 @@ def gen_hypser(r, quick, ct):
     return Case(fn, args, p, "hypser", dargs, "%s %s" % (shape, ztag), ct, timeout=20, op2=True)
 
 
+# --------------------------------------------------------------------------------------
+# C22: complex arguments / complex parameters (decided by special_pyref: exact Gaussian-rational partial sums + tail bound)
+# --------------------------------------------------------------------------------------
+HYPCX_PRECS = [10, 15, 24, 53, 53, 64, 100, 113, 200, 333, 500]
+
+
+def gen_typed_param(r, typ):
+    """(re, im, arg) of a parameter of the given hypsum type Z / Q / R / C that is not a non-positive integer"""
+    from fractions import Fraction
+    if typ == "Z":
+        n = r.randint(1, 12)
+        return Fraction(n), Fraction(0), (["int", n] if r.random() < 0.7 else ["mpf", n, 0])
+    if typ == "Q":
+        while True:
+            a, b = rand_rat(r, -6, 12)
+            if a % b:
+                break
+        f = Fraction(a, b)
+        if b in (2, 4) and r.random() < 0.5:
+            return f, Fraction(0), ["mpf"] + list(dyadic(f.numerator, f.denominator))
+        return f, Fraction(0), (["frac", a, b] if r.random() < 0.8 else ["fracstr", a, b])
+    if typ == "R":
+        num, den = rand_param_R(r)
+        return Fraction(num, den), Fraction(0), ["mpf"] + list(dyadic(num, den))
+    if typ == "C":
+        k1, k2 = r.choice([0, 1, 2, 5, 6]), r.choice([0, 1, 2, 5])
+        re = Fraction(r.randint(-4 << k1, 8 << k1), 1 << k1)
+        im = Fraction(r.choice([1, -1]) * r.randint(1, 4 << k2), 1 << k2)
+        return re, im, ["mpci", re.numerator, -(re.denominator.bit_length() - 1), im.numerator, -(im.denominator.bit_length() - 1)]
+    raise AssertionError(typ)
+
+
+def gen_hypcx(r, quick):
+    """non-terminating pFq through the COMPLEX summators of libhyper.make_hyp_summator: complex z (both parts non-zero, purely
+    imaginary) and / or complex parameters, every parameter of a drawn type Z / Q / R / C.  Type profiles: all-R (every count
+    of real-typed upper vs lower parameters: 0F1 0F2 1F1 1F2 1F3 2F2 2F3 3F3 2F1 3F2), all-R with one parameter replaced,
+    independent types, one complex parameter with real z.  |z| <= 1, <= 8, <= 40 (p <= q; beyond the switches to the
+    asymptotic expansions), tiny, |z| <= 0.8 (p = q+1)."""
+    from fractions import Fraction
+    na, nb = r.choice([(0, 1), (1, 1), (1, 1), (1, 2), (1, 2), (1, 2), (2, 2), (2, 3), (2, 3), (0, 2), (1, 3), (3, 3), (2, 1), (2, 1), (3, 2)])
+    prof = r.choice(["allR", "allR", "allR-1", "indep", "indep", "oneC"])
+    n = na + nb
+    if prof == "allR":
+        types = ["R"] * n
+    elif prof == "allR-1":
+        types = ["R"] * n
+        types[r.randrange(n)] = r.choice(["Z", "Q", "C"])
+    elif prof == "indep":
+        types = [r.choice(["Z", "Q", "Q", "R", "R", "R", "C"]) for _ in range(n)]
+    else:
+        types = [r.choice(["Z", "Q", "R", "R"]) for _ in range(n)]
+        types[r.randrange(n)] = "C"
+    P = [gen_typed_param(r, t) for t in types]
+    A, B = P[:na], P[na:]
+    has_c = "C" in types
+    p = r.choice(HYPCX_PRECS)
+    # argument
+    def dyc(lim, k):
+        return Fraction(r.randint(-lim << k, lim << k), 1 << k)
+    if na == nb + 1:
+        k = r.choice([2, 3, 4, 6])
+        while True:
+            zr, zi = dyc(1, k), dyc(1, k)
+            if 0 < zr * zr + zi * zi <= Fraction(16, 25):
+                break
+        ztag = "|z|<=0.8"
+        if zr * zr + zi * zi > Fraction(9, 25):
+            p = min(p, 200)
+    else:
+        c = r.random()
+        k = r.choice([0, 1, 3, 6])
+        if c < 0.3:
+            zr, zi, ztag = dyc(1, r.choice([2, 3, 6])), dyc(1, r.choice([2, 3, 6])), "|z|<=1"
+        elif c < 0.65:
+            zr, zi, ztag = dyc(6, k), dyc(6, k), "|z|<=8"
+        elif c < 0.9:
+            zr, zi, ztag = dyc(28, k), dyc(28, k), "|z|<=40"
+        else:
+            e = r.randint(10, p + 30)
+            zr, zi, ztag = Fraction(r.choice([1, -1, 3, -5]), 1 << e), Fraction(r.choice([1, -1, 3, 7]), 1 << (e + r.randint(0, 3))), "z tiny"
+    zc = r.random()
+    if has_c and zc < 0.35:
+        zi = Fraction(0)                     # real z: the complex-parameter / real-argument summator
+        zkind = "z real" if r.random() < 0.6 else "z real(mpc)"
+    elif zc < 0.5:
+        zr = Fraction(0)
+        zkind = "z imaginary"
+    else:
+        zkind = "z complex"
+    if zr == 0 and zi == 0:
+        zi = Fraction(1, 2)
+        zkind = "z imaginary"
+    if zi == 0 and zkind in ("z complex", "z imaginary"):
+        zi = Fraction(1, 4)
+    def de(f):
+        return [f.numerator, -(f.denominator.bit_length() - 1)]
+    if zkind == "z real":
+        za = ["mpf"] + de(zr)
+    elif zkind == "z real(mpc)":
+        za = ["mpc"] + de(zr)
+    else:
+        za = ["mpci"] + de(zr) + de(zi)
+    fname = {(1, 1): "hyp1f1", (0, 1): "hyp0f1", (1, 2): "hyp1f2", (2, 2): "hyp2f2", (2, 1): "hyp2f1", (3, 2): "hyp3f2",
+             (2, 3): "hyp2f3"}.get((na, nb), "hyper")
+    fn = fname if r.random() < 0.7 else "hyper"
+    Aa, Ba = [x[2] for x in A], [x[2] for x in B]
+    args = [["list", Aa], ["list", Ba], za] if fn == "hyper" else Aa + Ba + [za]
+    dargs = [na]
+    for (re, im, _) in A:
+        dargs += [re.numerator, re.denominator, im.numerator, im.denominator]
+    dargs.append(nb)
+    for (re, im, _) in B:
+        dargs += [re.numerator, re.denominator, im.numerator, im.denominator]
+    dargs += [zr.numerator, zr.denominator, zi.numerator, zi.denominator]
+    tag = "%dF%d %s %s %s" % (na, nb, prof, zkind, ztag)
+    return Case(fn, args, p, "hypcx", dargs, tag, True, timeout=20, op2=True,
+                post={"mode": "cx", "A": [(x[0], x[1]) for x in A], "B": [(x[0], x[1]) for x in B], "z": (zr, zi),
+                      "types": "".join(types[:na]) + ";" + "".join(types[na:])})
+
+
 def gen_small_x(r, p):
     """x = 0 exactly, or a tiny x with a full-length mantissa (between 2^-30 and far below 2^(-2p)), either sign"""
     c = r.random()
@@ -618,11 +807,13 @@ def gen_small_x(r, p):
 def gen_C22(r, quick):
     fn = r.choice(["hyp2f1", "hyp2f1", "hyp1f1", "hyp1f1", "hyp2f0", "hyp3f2", "hyper", "hyper",
                    "legendre", "chebyt", "chebyu", "hermite", "laguerre", "gegenbauer", "jacobi",
-                   "hypser", "hypser", "hypser", "legendre", "negdeg"])
+                   "hypser", "hypser", "hypser", "legendre", "negdeg", "hypcx", "hypcx", "hypcx"])
     ct = r.random() < 0.2
     p = pick_prec(r, quick)
     if fn == "hypser":
         return gen_hypser(r, quick, ct)
+    if fn == "hypcx":
+        return gen_hypcx(r, quick)
     if fn in ("hyp2f1", "hyp1f1", "hyp2f0", "hyp3f2", "hyper"):
         n = r.choice([r.randint(0, 6), r.randint(0, 40), r.randint(40, 150)])
         if fn == "hyp2f1":
@@ -727,6 +918,87 @@ def _is_special(t):
     return t[1] == 0 and t[2] != 0     # inf / nan tuples: man == 0 and exp != 0
 
 
+def _finite_out(res):
+    """(yre, yim, is_complex) as exact Fractions when the call returned a finite mpf / mpc, else None"""
+    from special_pyref import dy
+    if res.get("status") != "ok":
+        return None
+    v = res["val"]
+    if v["t"] == "mpf" and not _is_special(v["v"]):
+        s, m, e, b = v["v"]
+        return dy(-m if s else m, e), dy(0, 0), False
+    if v["t"] == "mpc" and not _is_special(v["v"]) and not _is_special(v["w"]):
+        s, m, e, b = v["v"]
+        s2, m2, e2, b2 = v["w"]
+        return dy(-m if s else m, e), dy(-m2 if s2 else m2, e2), True
+    return None
+
+
+POST_WP_EXTRA = 40      # enclosures used by the rational deciders: relative width 2^-(p+40)
+
+
+def _post_line(c, res):
+    """the driver request of a case whose reference is assembled outside the driver (Case.post)"""
+    po = c.post
+    if po["mode"] == "scale":
+        da = " ".join(str(x) for x in po["dargs"])
+        zn, zd = po["z"]
+        if abs(zn) == 1 and res.get("status") == "ok" and res["val"]["t"] in ("mpf", "mpc"):
+            # z = +-2^-k: y/z is a dyadic number, the driver decides y/z against the reference itself
+            k = zd.bit_length() - 1
+            v = res["val"]
+            if v["t"] == "mpf" and not _is_special(v["v"]):
+                s, m, e, b = v["v"]
+                return "spec2 %s %s | %d %d %d %d" % (po["fam"], da, zn * (-m if s else m), e + k, c.prec, SLACK)
+            if v["t"] == "mpc" and not _is_special(v["v"]) and not _is_special(v["w"]):
+                s, m, e, b = v["v"]
+                s2, m2, e2, b2 = v["w"]
+                return "specc2 %s %s | %d %d %d %d %d %d" % (po["fam"], da, zn * (-m if s else m), e + k if m else 0,
+                                                           zn * (-m2 if s2 else m2), e2 + k if m2 else 0, c.prec, SLACK)
+        return "sref2 %s %s | %d" % (po["fam"], da, c.prec + POST_WP_EXTRA)
+    if po["mode"] == "cx":
+        return "sref2 chebyt 0 0 1 | 8"         # no driver reference: a constant request keeps the batch aligned
+    raise AssertionError(po["mode"])
+
+
+def _parse_P(ans):
+    from special_pyref import dy
+    lo_m, lo_e, hi_m, hi_e = [int(t) for t in ans[2:].split(",")]
+    return dy(lo_m, lo_e), dy(hi_m, hi_e)
+
+
+def _post_answer(c, res, ans):
+    """final verdict of a Case.post case: 'ok' | 'violates' | 'borderline' | 'outside' | 'finite' (reference finite, the
+    call gave no finite number) | the driver's own answer"""
+    import special_pyref as PR
+    from fractions import Fraction
+    po = c.post
+    y = _finite_out(res)
+    if po["mode"] == "scale":
+        if ans in ("ok", "violates", "borderline", "undecided", "outside", "pole") or ans.startswith("?"):
+            return ans
+        if not ans.startswith("P:"):
+            return "outside"
+        if y is None:
+            return ans                      # P:...: reference finite (reported with the enclosure of value/z)
+        lo, hi = _parse_P(ans)
+        return PR.decide_scaled(y[0], y[1], Fraction(*po["z"]), lo, hi, c.prec, SLACK)
+    if po["mode"] == "cx":
+        if res.get("status") in ("timeout", "crash", "not-run"):
+            return "finite"
+        d = PR.hyp_series_disc(po["A"], po["B"], po["z"], c.prec + POST_WP_EXTRA)
+        if d is None:
+            return "outside"
+        sc = c.prec + POST_WP_EXTRA + 8
+        po["ref"] = {"what": "exact partial sum of the defining series (special_pyref.hyp_series_disc), value = (re + i im) * 2^-scale "
+                             "up to 2^-(p+40) relative", "parameter_types": po.get("types"), "scale": sc,
+                     "re": str(int(d[0] * (1 << sc))), "im": str(int(d[1] * (1 << sc))), "approx": [float(d[0]), float(d[1])]}
+        if y is None:
+            return "finite"
+        return PR.decide_disc(y[0], y[1], d[0], d[1], d[2], c.prec, SLACK)
+    raise AssertionError(po["mode"])
+
+
 def run_values(pid, n, seed, quick, nworkers=6, budget=None):
     """returns (stats, failing_inputs, disagreements, samples)"""
     r = random.Random((seed, pid, "values").__repr__())
@@ -739,9 +1011,13 @@ def run_values(pid, n, seed, quick, nworkers=6, budget=None):
             t["timeout"] = c.timeout
         tasks.append(t)
     results = run_pool(tasks, nworkers=nworkers, timeout=10.0 if quick else 60.0, budget=budget)
-    lines, idx = [], []
+    lines, post_cases = [], []
     for i, c in enumerate(cases):
         res = results.get(i, {"status": "not-run"})
+        if c.post is not None:
+            lines.append(_post_line(c, res))
+            post_cases.append(i)
+            continue
         da = " ".join(str(x) for x in c.dargs)
         o2 = "2" if c.op2 else ""
         if res["status"] == "ok" and res["val"]["t"] == "mpf" and not _is_special(res["val"]["v"]):
@@ -753,7 +1029,6 @@ def run_values(pid, n, seed, quick, nworkers=6, budget=None):
             lines.append("specc%s %s %s | %d %d %d %d %d %d" % (o2, c.fam, da, -m if s else m, e, -m2 if s2 else m2, e2, c.prec, SLACK))
         else:
             lines.append("sref%s %s %s | 8" % (o2, c.fam, da))    # only to learn pole / outside / value
-        idx.append(i)
     answers = ask_driver(lines)
     # the property says "relative error below 2^(8-p)":  `ok` at slack 7 proves it;  only `violates` at slack 8
     # (|y - v| > 2^(8-p)|v|) refutes it;  anything in between is counted as undecided (borderline)
@@ -762,13 +1037,15 @@ def run_values(pid, n, seed, quick, nworkers=6, budget=None):
         a2 = ask_driver([lines[i][:lines[i].rindex(" ")] + " %d" % (SLACK + 1) for i in again])
         for i, a in zip(again, a2):
             answers[i] = "violates" if a == "violates" else "borderline"
+    for i in post_cases:
+        answers[i] = _post_answer(cases[i], results.get(i, {"status": "not-run"}), answers[i])
     st = {"per_family": {}, "hist": {}, "evaluations": 0, "decided_ok": 0, "outside": 0, "undecided": 0, "borderline": 0,
           "timeouts": 0, "poles_agree": 0, "not_run": 0, "distinct": set()}
     fails, disagreements, samples = [], [], []
     for i, c in enumerate(cases):
         res = results.get(i, {"status": "not-run"})
         ans = answers[i]
-        fam = c.fam if c.fn == c.fam or c.fam not in ("hyper", "hypser") else c.fam + ":" + c.fn
+        fam = c.fam if c.fn == c.fam or c.fam not in ("hyper", "hypser", "hypcx") else c.fam + ":" + c.fn
         pf = st["per_family"].setdefault(fam, {"calls": 0, "ok": 0, "outside": 0, "undecided": 0, "pole": 0, "timeout": 0, "violates": 0, "complex_typed": 0})
         pf["calls"] += 1
         if c.ctype:
@@ -839,6 +1116,9 @@ def run_values(pid, n, seed, quick, nworkers=6, budget=None):
             pf["violates"] += 1
             inp["output"] = v
             inp["driver_line"] = lines[i][:2000]
+            if c.post is not None and c.post.get("ref"):
+                inp["reference"] = c.post["ref"]
+                del inp["driver_line"]
             fails.append({"site": site_of(c), "what": "%s: relative error exceeds 2^(8-p) at p=%d (decided against the exact value)" % (c.fn, c.prec),
                           "input": inp})
         else:
@@ -856,6 +1136,7 @@ SITES = {
     "polylog": "zeta.polylog", "hyp2f1": "hypergeometric.hyp2f1", "hyp1f1": "hypergeometric.hyp1f1",
     "hyp2f0": "hypergeometric.hyp2f0", "hyp3f2": "hypergeometric.hyper", "hyper": "hypergeometric.hyper",
     "hyp0f1": "hypergeometric.hyp0f1", "hyp1f2": "hypergeometric.hyp1f2", "hyp2f2": "hypergeometric.hyp2f2",
+    "hyp2f3": "hypergeometric.hyp2f3",
 
     "legendre": "orthogonal.legendre", "chebyt": "orthogonal.chebyt", "chebyu": "orthogonal.chebyu",
     "hermite": "orthogonal.hermite", "laguerre": "orthogonal.laguerre", "gegenbauer": "orthogonal.gegenbauer",
@@ -878,6 +1159,11 @@ def site_of(c):
     base = SITES.get(c.fn, c.fn)
     if c.fam == "hurwitz":
         return "zeta.zeta[hurwitz,a%s]" % (">1" if c.dargs[1] > 1 else "=1")
+    if c.fam == "polyser":
+        s_, zn, zd = c.dargs
+        return "zeta.polylog[s>=2,|z|%s]" % ("<=0.75" if 4 * abs(zn) <= 3 * zd else ">0.75")
+    if c.fam == "hypcx":
+        return base + "[non-terminating,complex]"
     if c.fam == "polylog":
         s_, zn, zd = c.dargs
         if s_ == 1:
@@ -1054,6 +1340,74 @@ def run_cvtparam(n, seed, nworkers=4):
     return {"cases": n - skipped, "skipped_no_result": skipped, "hist": hist}, dis
 
 
+def run_pyref_tie(n, seed):
+    """tie between the exact Gaussian-rational series evaluator of special_pyref.py (the reference of the `hypcx` cases) and
+    the verified enclosure Mp.SpecRef.hypEncl (`mpdrv sref2 hypser`), without mpmath:
+    * real z: the disc must meet the driver's enclosure of the same series and have zero imaginary centre;
+    * z = i y: real and imaginary part must meet the driver's enclosures of the even / odd part, which are real series
+      2pF(2q+1) in -y^2 4^(p-q-1) (special_pyref.imag_axis_split) -- this exercises the complex arithmetic of the evaluator."""
+    import special_pyref as PR
+    from fractions import Fraction
+    r = random.Random((seed, "pyref-tie").__repr__())
+
+    def dline(A, B, z, wp):
+        d = [len(A)]
+        for a in A: d += [a.numerator, a.denominator]
+        d.append(len(B))
+        for b in B: d += [b.numerator, b.denominator]
+        d += [z.numerator, z.denominator]
+        return "sref2 hypser %s | %d" % (" ".join(map(str, d)), wp)
+
+    lines, metas = [], []
+    for i in range(n):
+        na, nb = r.choice([(0, 1), (1, 1), (1, 2), (2, 2), (2, 3), (0, 2), (2, 1), (3, 2)])
+        A = [Fraction(*rand_param_t(r)) for _ in range(na)]
+        B = [Fraction(*rand_param_t(r)) for _ in range(nb)]
+        wp = r.choice([40, 90, 200])
+        if na == nb + 1:
+            t = Fraction(r.randint(-12, 12), 16)
+        else:
+            t = Fraction(*rand_dyadic(r, -12, 12, 4))
+        t = t or Fraction(1, 2)
+        if i % 2 == 0:
+            metas.append(("real", A, B, t, wp, len(lines)))
+            lines.append(dline(A, B, t, wp))
+        else:
+            Ae, Be, Ao, Bo, w, fac = PR.imag_axis_split(A, B, t)
+            metas.append(("imag", A, B, t, wp, len(lines), fac))
+            lines.append(dline(Ae, Be, w, wp))
+            lines.append(dline(Ao, Bo, w, wp))
+    answers = ask_driver(lines, nproc=2)
+    dis, done, skipped = [], 0, 0
+    for m in metas:
+        kind, A, B, t, wp, li = m[:6]
+        z = (t, Fraction(0)) if kind == "real" else (Fraction(0), t)
+        d = PR.hyp_series_disc([(a, 0) for a in A], [(b, 0) for b in B], z, wp)
+        need = answers[li:li + (1 if kind == "real" else 2)]
+        if d is None or not all(a.startswith("P:") for a in need):
+            skipped += 1
+            continue
+        cre, cim, rad = d
+        if kind == "real":
+            lo, hi = _parse_P(need[0])
+            ok = lo <= cre + rad and cre - rad <= hi and abs(cim) <= rad
+            narrow = (hi - lo) + 2 * rad <= abs(cre) * Fraction(1, 1 << (wp - 12)) or abs(cre) < Fraction(1, 1 << 20)
+        else:
+            lo, hi = _parse_P(need[0])
+            lo2, hi2 = _parse_P(need[1])
+            fac = m[6]
+            i1, i2 = sorted([fac * lo2, fac * hi2])
+            ok = lo <= cre + rad and cre - rad <= hi and i1 <= cim + rad and cim - rad <= i2
+            big = max(abs(cre), abs(cim))
+            narrow = max(hi - lo, i2 - i1) + 2 * rad <= big * Fraction(1, 1 << (wp - 12)) or big < Fraction(1, 1 << 20)
+        done += 1
+        if not (ok and narrow):
+            dis.append({"name": "T1:pyref_vs_hypEncl", "op": "sref2 hypser", "line": lines[li][:300], "kind": kind,
+                        "impl": "disc centre (%r, %r) radius %r" % (float(cre), float(cim), float(rad)), "model": " ".join(need)[:300],
+                        "meets": ok, "narrow": narrow})
+    return {"cases": done, "skipped": skipped}, dis
+
+
 # --------------------------------------------------------------------------------------
 # check entry used by props/C18.py, C19.py, C22.py
 # --------------------------------------------------------------------------------------
@@ -1073,7 +1427,14 @@ RULES = {
            "between consecutive switch-overs, for every ratio c (and 1/c) that occurs as a numeric literal next to a precision-like "
            "name in mpf_zeta_int / mpf_zeta / mpc_zeta (read from the tree under test with ast: 1/30, 1/20, 0.1, 0.2, 1/2.54, 0.431, "
            "plus 1/2 and 1), p in 100..1200, even and odd n, decided against the direct-sum enclosure of zeta(n) (<= 2^13 terms) "
-           "or, when that needs more terms, the closed form for even n.",
+           "or, when that needs more terms, the closed form for even n. "
+           "Small-argument class (17%): polylog(s, z), integer s in 2..60, z = +-2^-k, +-m*2^-k (m small odd) and full-length "
+           "mantissas times 2^-k with k uniform in 1..2p+24 (Li_s(z) ~ z arbitrarily small against polylog_series' absolute stopping "
+           "tolerance eps = 2^-(p+10): every position of the first neglected term relative to eps and to eps*|z|, down to |z| < eps), "
+           "ordinary dyadic |z| <= 13/16 and z = +-(3/4 +- 2^-j) on both sides of the switch to polylog_unitcircle; decided against "
+           "z * (s+1)F(s)(1,..,1; 2,..,2; z) with the verified series enclosure hypEncl: for z = +-2^-k the driver decides the exactly "
+           "rescaled output y/z, otherwise the enclosure of Li_s(z)/z at p+40 bits is multiplied by z and compared in exact rational "
+           "arithmetic (special_pyref.decide_scaled).",
     "C22": "seeded structured generator over terminating hyp2f1, hyp1f1, hyp2f0, hyp3f2 and hyper() with (p,q) up to (4,3): -n <= 150, "
            "rational parameters as int / exact mpf / (p,q) tuples / 'p/q' strings, non-positive integer denominators on both sides of the "
            "termination index (poles), dyadic z inside, on and outside the unit disk up to |z| = 3000; legendre, chebyt, chebyu, hermite, "
@@ -1084,7 +1445,16 @@ RULES = {
            "term, L uniform in 2..130 (hypsum's cancellation test and its retries at extraprec 50/105/215, |z| up to and beyond the "
            "switch to the asymptotic expansion), z > 0, small |z|; 2F1, 1F0, 3F2 at dyadic |z| <= 3/4; precisions 10..1000; decided "
            "against the exact rational partial sum with a checked geometric tail bound. Negative-degree class (8%): legendre, "
-           "chebyt, chebyu at integer degree -201..-1 with x = 0, tiny x with a full-length mantissa (2^-25 .. 2^(-3p-40)), ordinary x.",
+           "chebyt, chebyu at integer degree -201..-1 with x = 0, tiny x with a full-length mantissa (2^-25 .. 2^(-3p-40)), ordinary x. "
+           "Parameter types: hypsum generates one summator per type signature (Z integer / Q small-denominator rational / R other "
+           "real / C complex, per parameter, times real / complex z); the non-terminating class draws every parameter as Z, Q or R "
+           "(R = odd/2^k, k in 5..12, passed as an exact mpf; one third of the cases all-R) and adds the shapes 2F3, 0F2, 1F3. "
+           "Complex class (13%): 0F1, 1F1, 1F2, 1F3, 0F2, 2F2, 2F3, 3F3, 2F1, 3F2 with complex z (both parts non-zero or purely "
+           "imaginary; |z| <= 1, <= 8, <= 40, tiny; |z| <= 0.8 for p = q+1) and / or complex parameters, type profiles all-R, all-R with "
+           "one parameter replaced by Z/Q/C, independent types, one C parameter with real z (mpf and mpc-typed); precisions 10..500; "
+           "decided in exact rational arithmetic against the defining series summed exactly over Q(i) with a checked geometric tail "
+           "bound (special_pyref.py); that evaluator is compared in every run with the verified enclosure hypEncl on real z and, through "
+           "the even/odd split of the series, on purely imaginary z (decision_logic_T1.pyref_vs_hypEncl).",
 }
 
 
@@ -1099,8 +1469,12 @@ ASSUMPTIONS = {
     "C19": [
         "PARTIAL: zeta at s <= 0 and even s >= 2 (integers), zeta/altzeta at odd and even integers n >= 2 with n >= ~(p+34)/13 (direct "
         "sum of at most 2^13 terms, Props/C19b.lean), Hurwitz zeta(2k, a) at integers a >= 1, bernpoly/eulerpoly at dyadic x, "
-        "polylog(1, z), polylog(-n, z) for |z| < 1 and polylog(2k, 1) are decided; everything else (small odd s, non-integer or complex s, "
+        "polylog(1, z), polylog(-n, z) for |z| < 1, polylog(2k, 1) and polylog(s, z) for integer s >= 2 at dyadic |z| <= 13/16 are "
+        "decided; everything else (small odd s, non-integer or complex s, "
         "derivatives, dirichlet, lerchphi, stieltjes, primezeta, siegeltheta, siegelz, riemannr, polylog with |z| >= 1) is NOT decided",
+        "polylog(s, z), s >= 2: the value is DEFINED as z times the sum of the series (s+1)F(s)(1,..,1; 2,..,2; z) = sum_k z^(k-1)/k^s "
+        "(enclosed by Mp.SpecRef.hypEncl, sound by Props/C22b.lean); the multiplication by the dyadic z and the comparison with the "
+        "output are done in exact rational arithmetic in the harness (special_pyref.decide_scaled), inside the driver when z = +-2^-k",
         "altzeta(s) := (1 - 2^(1-s)) zeta(s) and the Euler polynomials E_n(x) := 2/(n+1) (B_{n+1}(x) - 2^(n+1) B_{n+1}(x/2)) are "
         "definitions in terms of Mathlib's riemannZeta / Polynomial.bernoulli (Mathlib defines neither)",
         "a sampled (seeded, structured) set of arguments and precisions is validated; no theorem about mpmath's series code",
@@ -1109,8 +1483,12 @@ ASSUMPTIONS = {
         "PARTIAL: terminating pFq series at rational parameters / dyadic arguments, the seven polynomial families at natural degree "
         "(legendre, chebyt, chebyu at every integer degree), and NON-terminating pFq series with p <= q (any dyadic z) or p = q+1 "
         "(|z| <= 3/4) at rational parameters none of which is a non-positive integer are decided; analytic continuation of "
-        "p = q+1 series beyond the disk, complex parameters/arguments, hyperu, Whittaker, Meijer G, Appell, hyper2d, legenp/legenq, "
+        "p = q+1 series beyond the disk, hyperu, Whittaker, Meijer G, Appell, hyper2d, legenp/legenq, "
         "spherharm, parabolic cylinder functions are NOT decided",
+        "non-terminating pFq at complex (Gaussian-rational) arguments / parameters: the reference is NOT produced by the Lean driver "
+        "but by harness/special_pyref.py (exact integer arithmetic: partial sum of the defining series over Q(i) plus the geometric "
+        "tail bound |t_K| rho/(1-rho) with a monotone ratio bound, same scheme as hypEncl); it is trusted as Python code and tied to "
+        "hypEncl in every run on real and purely imaginary arguments (pyref_vs_hypEncl)",
         "the value of a non-terminating pFq is DEFINED as the sum of its series (Props/C22b.lean: hypSeries; convergence is proved "
         "for every decided case); no closed form or transformation formula is trusted (1F1(1;1;z) = e^z is proved as a sanity link)",
         "legendre at negative integer degree is DEFINED by P_n := P_(-n-1) (Props/C22b.lean: legendrePZ, legendrePZ_reflect); chebyt/chebyu "
@@ -1155,6 +1533,8 @@ def check(pid, ctx):
         t1["hypsum_pole_logic"] = s1; dis += d1
         s2, d2 = run_cvtparam(800 if quick else 30000, ctx.seed)
         t1["convert_param"] = s2; dis += d2
+        s3, d3 = run_pyref_tie(60 if quick else 1500, ctx.seed)
+        t1["pyref_vs_hypEncl"] = s3; dis += d3
     cov["decision_logic_T1"] = t1
     cov["evaluations"] += sum(v["cases"] for v in t1.values())
     cov["programs"] += len(t1)
@@ -1197,4 +1577,5 @@ if __name__ == "__main__":
     if which in ("all", "C22"):
         s, d = run_hyppole(300, seed); print("hyppole", s, len(d), d[:3]); tot += len(d)
         s, d = run_cvtparam(800, seed); print("cvtparam", s, len(d), d[:3]); tot += len(d)
+        s, d = run_pyref_tie(60, seed); print("pyref-tie", s, len(d), d[:3]); tot += len(d)
     print("total failing/disagreeing:", tot)
